@@ -28,7 +28,7 @@ from . import _nullrows_common as K
 
 POOL = [
     "x", "y", "z", "A", "B", "x + A", "y + B", "x:A", "z + x", "center(z)", "C(B)", "A + B + A:B",
-    "np.log(y)", "0 + z", "scale(x) + B", "lag(y) + z", "x + y + x:y", "C(A) + center(x)",
+    "np.log(y)", "0 + z", "scale(x) + B", "lag(y) + z", "x + y + x:y", "C(A) + center(x)", "0",
 ]
 
 ENTRIES = {
@@ -71,33 +71,48 @@ KEYSETS = {1: [("a",)], 2: [("lhs", "rhs"), ("root", "a")], 3: [("root", "a", "b
 STR_NODES = [("str", 1, 1), ("str", 0, 2), ("str", 0, 3), ("str", 1, 2), ("str", 2, 1), ("str", 2, 2), ("str", 1, 3), ("str", 0, 4)]
 
 
-def _gen(depth, leaves):
-    """all nodes with nesting depth <= depth and <= leaves parts"""
-    out = [("leaf",)]
-    if depth == 0 or leaves < 1:
-        return out
-    out += [s for s in STR_NODES if _n_leaves(s) <= leaves and _depth(s) <= depth]
-    sub = _gen(depth - 1, leaves)
-    for k in (2, 3, 4):
-        for ch in itertools.product(sub, repeat=k):
-            if sum(_n_leaves(c) for c in ch) <= leaves:
-                out.append(("tup", ch))
-    for k in (1, 2, 3):
-        for ch in itertools.product(sub, repeat=k):
-            if sum(_n_leaves(c) for c in ch) <= leaves:
-                for keys in KEYSETS[k]:
-                    out.append(("key", keys, ch))
+def _compositions(total, k):
+    if k == 1:
+        if total >= 1:
+            yield (total,)
+        return
+    for first in range(1, total - k + 2):
+        for rest in _compositions(total - first, k - 1):
+            yield (first,) + rest
+
+
+_MEMO = {}
+
+
+def _nodes(depth, L):
+    """all nodes with nesting depth <= depth and exactly L parts"""
+    key = (depth, L)
+    if key in _MEMO:
+        return _MEMO[key]
+    out = []
+    if L == 1:
+        out.append(("leaf",))
+    if depth >= 1:
+        out += [s for s in STR_NODES if _n_leaves(s) == L and _depth(s) <= depth]
+        for k in (2, 3, 4):
+            for comp in _compositions(L, k):
+                for ch in itertools.product(*(_nodes(depth - 1, c) for c in comp)):
+                    out.append(("tup", ch))
+        for k in (1, 2, 3):
+            for comp in _compositions(L, k):
+                for ch in itertools.product(*(_nodes(depth - 1, c) for c in comp)):
+                    for keys in KEYSETS[k]:
+                        out.append(("key", keys, ch))
+    _MEMO[key] = out
     return out
 
 
 def skeletons(max_depth=3, max_leaves=4):
-    seen, res = set(), []
-    for node in _gen(max_depth, max_leaves):
-        if node[0] == "leaf":
-            continue
-        if node not in seen:
-            seen.add(node)
-            res.append(node)
+    res = []
+    for L in range(1, max_leaves + 1):
+        for node in _nodes(max_depth, L):
+            if node[0] != "leaf":
+                res.append(node)
     return res
 
 
